@@ -166,6 +166,17 @@ func c02Stress(c *mon.Ctx, r *mon.Rand) {
 		rec = pr.Recorder
 		opts.Reporter = pr
 	}
+	// a third of the runs configure a sanitizer and ask for every other gauge
+	// under a spelling it rewrites: delivered under the sanitized name only
+	withSan := r.Fork(4242).Chance(1, 3)
+	if withSan {
+		opts.SanitizeOptions = &tally.SanitizeOptions{
+			NameCharacters:       tally.ValidCharacters{Ranges: tally.AlphanumericRange, Characters: tally.UnderscoreDashDotCharacters},
+			KeyCharacters:        tally.ValidCharacters{Ranges: tally.AlphanumericRange, Characters: tally.UnderscoreCharacters},
+			ValueCharacters:      tally.ValidCharacters{Ranges: tally.AlphanumericRange, Characters: tally.UnderscoreCharacters},
+			ReplacementCharacter: '_',
+		}
+	}
 	creators := r.Bool() // set up before the root exists: its ticker goroutine reads rec.Delay
 	// half of the runs: a wide registry (40 subscopes over 4-16 shards), sixteen of
 	// the gauges on the root scope itself, and a reporter whose gauge writes are
@@ -210,16 +221,23 @@ func c02Stress(c *mon.Ctx, r *mon.Rand) {
 		}
 	}
 	for i := range gauges {
+		ask, clean := fmt.Sprintf("g%d", i), fmt.Sprintf("g%d", i)
+		if withSan && i%2 == 1 {
+			ask, clean = fmt.Sprintf("g:%d", i), fmt.Sprintf("g_%d", i)
+		}
 		if wide && i < 16 {
-			gauges[i] = root.Gauge(fmt.Sprintf("g%d", i))
-			names[i] = fmt.Sprintf("g%d", i)
+			gauges[i] = root.Gauge(ask)
+			names[i] = clean
 			continue
 		}
 		sc := root.SubScope(fmt.Sprintf("s%d", i%nSub))
-		gauges[i] = sc.Gauge(fmt.Sprintf("g%d", i))
-		names[i] = fmt.Sprintf("s%d.g%d", i%nSub, i)
+		gauges[i] = sc.Gauge(ask)
+		if withSan && i%2 == 1 {
+			sc.Gauge(fmt.Sprintf("g %d", i)) // and once more under another spelling
+		}
+		names[i] = fmt.Sprintf("s%d.%s", i%nSub, clean)
 	}
-	desc := map[string]interface{}{"cached": cached, "interval_us": interval.Microseconds(), "gauges": G, "concurrent_first_use_of_other_gauges": creators, "wide_registry_root_gauges_slow_writes": wide, "shards": shards}
+	desc := map[string]interface{}{"cached": cached, "interval_us": interval.Microseconds(), "gauges": G, "concurrent_first_use_of_other_gauges": creators, "wide_registry_root_gauges_slow_writes": wide, "shards": shards, "sanitizer_rewriting_gauge_names": withSan}
 	c.LogCase(fmt.Sprint(desc))
 	epochs := 60
 	last := make([]uint64, G)
